@@ -856,6 +856,225 @@ async fn scenario_transport(variant: u8, accept: Accept, fault: Option<(u8, Faul
     obs
 }
 
+/// (E) a hostile peer on real QUIC against the exported entry points.
+/// `acceptor_under_test`: the real `handle_connection` faces a scripted initiator (else the real
+/// `connect_and_sync` faces a scripted acceptor). `script`:
+///   0 close the connection without opening / accepting a stream
+///   1 open the stream (the initiator writes one byte so that the stream exists), then close the connection
+///   2 send the correct first frame, then close the connection abruptly
+///   3 send a garbage frame (valid length prefix), finish, read to the end
+///   4 send the correct first frame, finish the send side, read to the end (no further frames)
+///   5 (initiator only) ask for a document the acceptor does not have, finish, read to the end
+///   5 (acceptor only) answer the request with Abort(AlreadySyncing), finish
+async fn scenario_hostile(acceptor_under_test: bool, script: u8, variant: u8, deadline: Duration) -> Observed {
+    use iroh::endpoint::presets;
+    use iroh_docs::net::{connect_and_sync, handle_connection};
+    let mut obs = Observed::default();
+    let handle = spawn_actor(&side_entries(if acceptor_under_test { 1 } else { 0 }, variant));
+    let before = handle_dump(&handle, ns_id(0)).await.ok();
+    let bind = |seed: u8, accepting: bool| async move {
+        let mut b = iroh::Endpoint::builder(presets::Minimal).secret_key(iroh::SecretKey::from_bytes(&[seed; 32]));
+        if accepting {
+            b = b.alpns(vec![iroh_docs::ALPN.to_vec()]);
+        }
+        b.bind().await
+    };
+    let (ep_a, ep_b) = match (bind(0x53, false).await, bind(0x54, true).await) {
+        (Ok(a), Ok(b)) => (a, b),
+        (a, b) => panic!("MACHINERY: cannot bind loopback endpoints: {:?} {:?}", a.err().map(|e| e.to_string()), b.err().map(|e| e.to_string())),
+    };
+    let id_a = ep_a.id();
+    let addr_b = ep_b.addr();
+    let mut peer = Scripted::new(&side_entries(if acceptor_under_test { 0 } else { 1 }, variant), acceptor_under_test);
+    let mut bad: Vec<(String, String)> = vec![];
+    let garbage = || {
+        let mut g = (12u32).to_be_bytes().to_vec();
+        g.extend_from_slice(&[0xEE; 12]);
+        g
+    };
+    if acceptor_under_test {
+        let h2 = handle.clone();
+        let ep_b2 = ep_b.clone();
+        let sut = tokio::task::spawn_local(async move {
+            let incoming = ep_b2.accept().await.ok_or_else(|| "endpoint closed".to_string())?;
+            let conn = incoming.accept().map_err(|e| e.to_string())?.await.map_err(|e| e.to_string())?;
+            let cb = move |ns: NamespaceId, _peer: iroh::PublicKey| async move {
+                if ns == ns_id(0) { AcceptOutcome::Allow } else { AcceptOutcome::Reject(AbortReason::NotFound) }
+            };
+            Ok::<_, String>(handle_connection(h2, conn, cb, None).await)
+        });
+        let hostile = tokio::task::spawn_local(async move {
+            let conn = match ep_a.connect(addr_b, iroh_docs::ALPN).await {
+                Ok(c) => c,
+                Err(e) => return format!("connect failed: {e}"),
+            };
+            if script == 0 {
+                conn.close(0u32.into(), b"bye");
+                // give the close frame a moment to leave
+                tokio::time::sleep(Duration::from_millis(50)).await;
+                ep_a.close().await;
+                return "closed".into();
+            }
+            let Ok((mut send, mut recv)) = conn.open_bi().await else { return "open_bi failed".into() };
+            match script {
+                1 => {
+                    let _ = send.write_all(&[0u8]).await;
+                    conn.close(0u32.into(), b"bye");
+                }
+                2 => {
+                    let f = peer.next_correct_frame().expect("first frame");
+                    let _ = send.write_all(&f).await;
+                    tokio::time::sleep(Duration::from_millis(20)).await;
+                    conn.close(0u32.into(), b"bye");
+                }
+                3 => {
+                    let _ = send.write_all(&garbage()).await;
+                    let _ = send.finish();
+                    let _ = recv.read_to_end(1 << 20).await;
+                }
+                4 => {
+                    let f = peer.next_correct_frame().expect("first frame");
+                    let _ = send.write_all(&f).await;
+                    let _ = send.finish();
+                    let _ = recv.read_to_end(1 << 20).await;
+                }
+                _ => {
+                    let msg = peer.sut.sync_initial(ns_id(0)).expect("initial");
+                    let f = encode(Frame::Init { namespace: ns_id(1), message: msg });
+                    let _ = send.write_all(&f).await;
+                    let _ = send.finish();
+                    let _ = recv.read_to_end(1 << 20).await;
+                }
+            }
+            tokio::time::sleep(Duration::from_millis(50)).await;
+            ep_a.close().await;
+            "done".into()
+        });
+        match tokio::time::timeout(deadline, async { tokio::join!(sut, hostile) }).await {
+            Err(_) => obs.hang = true,
+            Ok((Ok(Ok(res)), _)) => {
+                obs.into_outcome = "ok".into();
+                obs.sut_result = match &res {
+                    Ok(_) => "Ok".into(),
+                    Err(e) => format!("Err({})", short(&format!("{e:?}"))),
+                };
+                match &res {
+                    Ok(f) => {
+                        // only script 4 can end well: the peer sent a correct request and then nothing
+                        if script != 4 {
+                            bad.push(("hostile_peer_is_an_error".into(), format!("the acceptor reported success ({} sent, {} received) although the peer misbehaved (script {script})", f.outcome.num_sent, f.outcome.num_recv)));
+                        }
+                    }
+                    Err(e) => {
+                        if e.peer() != Some(id_a) {
+                            bad.push(("acceptor_error_names_peer_and_document".into(), format!("acceptor error {}: peer()={:?}", obs.sut_result, e.peer().map(|p| p.fmt_short().to_string()))));
+                        }
+                        if script == 5 && !matches!(e, iroh_docs::net::AcceptError::Abort { reason: AbortReason::NotFound, .. }) {
+                            bad.push(("declined_request_is_reported_as_declined".into(), format!("request for an unknown document: {}", obs.sut_result)));
+                        }
+                    }
+                }
+            }
+            Ok((a, _)) => obs.panic = Some(format!("task join: {:?}", a.map(|r| r.map(|_| ())).map_err(|e| e.to_string()))),
+        }
+        ep_b.close().await;
+    } else {
+        let h2 = handle.clone();
+        let ep_a2 = ep_a.clone();
+        let sut = tokio::task::spawn_local(async move { connect_and_sync(&ep_a2, &h2, ns_id(0), addr_b, None).await });
+        let ep_b2 = ep_b.clone();
+        let hostile = tokio::task::spawn_local(async move {
+            let Some(incoming) = ep_b2.accept().await else { return "no incoming".to_string() };
+            let Ok(accepting) = incoming.accept() else { return "accept failed".to_string() };
+            let Ok(conn) = accepting.await else { return "handshake failed".to_string() };
+            if script == 0 {
+                conn.close(0u32.into(), b"bye");
+                tokio::time::sleep(Duration::from_millis(50)).await;
+                return "closed".into();
+            }
+            let Ok((mut send, mut recv)) = conn.accept_bi().await else { return "accept_bi failed".into() };
+            // read the request frame
+            let mut len = [0u8; 4];
+            if recv.read_exact(&mut len).await.is_err() {
+                return "no request".into();
+            }
+            let mut buf = vec![0u8; u32::from_be_bytes(len) as usize];
+            if recv.read_exact(&mut buf).await.is_err() {
+                return "short request".into();
+            }
+            let mut b = BytesMut::new();
+            b.extend_from_slice(&len);
+            b.extend_from_slice(&buf);
+            let frame = verif_codec::decode(&mut b).ok().flatten();
+            match script {
+                1 => conn.close(0u32.into(), b"bye"),
+                2 => {
+                    peer.absorb(frame);
+                    if let Some(f) = peer.next_correct_frame() {
+                        let _ = send.write_all(&f).await;
+                    }
+                    tokio::time::sleep(Duration::from_millis(20)).await;
+                    conn.close(0u32.into(), b"bye");
+                }
+                3 => {
+                    let _ = send.write_all(&garbage()).await;
+                    let _ = send.finish();
+                    let _ = recv.read_to_end(1 << 20).await;
+                }
+                4 => {
+                    peer.absorb(frame);
+                    if let Some(f) = peer.next_correct_frame() {
+                        let _ = send.write_all(&f).await;
+                    }
+                    let _ = send.finish();
+                    let _ = recv.read_to_end(1 << 20).await;
+                }
+                _ => {
+                    let _ = send.write_all(&encode(Frame::Abort { reason: AbortReason::AlreadySyncing })).await;
+                    let _ = send.finish();
+                    let _ = recv.read_to_end(1 << 20).await;
+                }
+            }
+            tokio::time::sleep(Duration::from_millis(50)).await;
+            "done".into()
+        });
+        match tokio::time::timeout(deadline, async { tokio::join!(sut, hostile) }).await {
+            Err(_) => obs.hang = true,
+            Ok((Ok(res), _)) => {
+                obs.into_outcome = "ok".into();
+                obs.sut_result = match &res {
+                    Ok(_) => "Ok".into(),
+                    Err(e) => format!("Err({})", short(&format!("{e:?}"))),
+                };
+                match (&res, script) {
+                    (Ok(f), 0 | 1 | 3 | 5) => bad.push(("hostile_peer_is_an_error".into(), format!("the initiator reported success ({} sent, {} received) although the peer misbehaved (script {script})", f.outcome.num_sent, f.outcome.num_recv))),
+                    (Err(e), 5) if !matches!(e, iroh_docs::net::ConnectError::RemoteAbort(AbortReason::AlreadySyncing)) => {
+                        bad.push(("declined_request_is_reported_as_declined".into(), format!("peer answered Abort(AlreadySyncing): {}", obs.sut_result)));
+                    }
+                    _ => {}
+                }
+            }
+            Ok((a, _)) => obs.panic = Some(format!("task join: {:?}", a.map(|r| r.map(|_| ())).map_err(|e| e.to_string()))),
+        }
+        ep_a.close().await;
+        ep_b.close().await;
+    }
+    // a peer that sent no valid entries leaves the store as it was (scripts without a complete
+    // exchange of entries: all but 2 and 4)
+    if !matches!(script, 2 | 4) && !obs.hang {
+        let after = handle_dump(&handle, ns_id(0)).await.ok();
+        if after != before {
+            obs.store_changed_on_reject = true;
+        }
+    }
+    if !obs.hang && !actor_alive(&handle).await {
+        obs.actor_dead = true;
+    }
+    obs.transport_bad = bad;
+    let _ = handle.shutdown().await;
+    obs
+}
+
 fn short(s: &str) -> String {
     // keep the error variant and the innermost message, drop ids
     let s: String = s.chars().filter(|c| !c.is_ascii_digit()).collect();
@@ -896,6 +1115,7 @@ fn judge(obs: &Observed, what: &str) -> Vec<(&'static str, Value, String)> {
             "complete_session_converges" => "complete_session_converges",
             "healthy_session_succeeds" => "healthy_session_succeeds",
             "local_fault_stops_the_session" => "local_fault_stops_the_session",
+            "hostile_peer_is_an_error" => "hostile_peer_is_an_error",
             _ => "declined_request_is_reported_as_declined",
         };
         bad.push((name, json!({"transport": true}), format!("{what}: {d}")));
@@ -957,6 +1177,12 @@ enum Case {
         /// (side, fault) applied before the session starts
         fault: Option<(u8, Fault)>,
     },
+    /// (E) a scripted hostile peer over real QUIC against handle_connection / connect_and_sync
+    Hostile {
+        acceptor_under_test: bool,
+        script: u8,
+        variant: u8,
+    },
 }
 
 fn run_case(case: &Case) -> (Observed, String) {
@@ -967,6 +1193,7 @@ fn run_case(case: &Case) -> (Observed, String) {
                 Case::Alice { script, variant, hold } => scenario_alice(script, *variant, *hold, deadline).await,
                 Case::Fault { variant, side, fault, .. } => scenario_fault(*variant, *side, *fault, deadline).await.0,
                 Case::Transport { variant, accept, fault } => scenario_transport(*variant, *accept, *fault, deadline * 2).await,
+                Case::Hostile { acceptor_under_test, script, variant } => scenario_hostile(*acceptor_under_test, *script, *variant, deadline * 2).await,
             }
         })
     };
@@ -1111,6 +1338,20 @@ fn run(ctx: &Ctx, report: &mut Report) {
                 }
                 report.count("transport_scenarios", 1);
                 one(report, Case::Transport { variant, accept, fault }, accept != Accept::Allow || fault.is_some(), ordinal);
+            }
+        }
+    }
+    // (E)
+    let variants: Vec<u8> = if ctx.quick() { vec![0, 3] } else { vec![0, 1, 2, 3] };
+    for variant in variants {
+        for acceptor_under_test in [true, false] {
+            for script in 0..=5u8 {
+                ordinal += 1;
+                if !ctx.mine(ordinal) {
+                    continue;
+                }
+                report.count("hostile_transport_scenarios", 1);
+                one(report, Case::Hostile { acceptor_under_test, script, variant }, true, ordinal);
             }
         }
     }
